@@ -87,7 +87,7 @@ Proof.
 Qed.
 
 Lemma axis_list_chain d t a x rest :
-  Arena d t -> chain_ok d a x rest -> N.of_nat (length rest) <= size t ->
+  Arena' d t -> chain_ok d a x rest -> N.of_nat (length rest) <= size t ->
   axis_list d a x = Ok (x :: rest).
 Proof.
   intros HA Hc Hl. unfold axis_list. apply axis_collect_chain; [exact Hc|].
@@ -109,7 +109,7 @@ Proof.
   specialize (IH pp). lia.
 Qed.
 
-Lemma anc_chain_ok d t : Arena d t -> forall fuel id par s,
+Lemma anc_chain_ok d t : Arena' d t -> forall fuel id par s,
   In (id, par, s) (table t) -> (N.to_nat id <= fuel)%nat ->
   chain_ok d AxAncestors id (anc_chain fuel t par).
 Proof.
@@ -117,19 +117,19 @@ Proof.
   - destruct par as [p|].
     + destruct (in_table_table'' _ _ _ _ Hin) as [pv Hin'].
       destruct (table'_parent _ _ _ _ _ Hin') as (pp & ppv & k & l1 & l2 & _ & E & _). lia.
-    + cbn [anc_chain chain_ok axis_step]. apply (nav_parent _ _ _ _ _ HA Hin).
+    + cbn [anc_chain chain_ok axis_step]. apply (nav_parent' _ _ _ _ _ HA Hin).
   - destruct par as [p|].
     + destruct (in_table_table'' _ _ _ _ Hin) as [pv Hin'].
       destruct (table'_parent _ _ _ _ _ Hin') as (pp & ppv & k & l1 & l2 & Hp' & E & _).
       pose proof (in_table'_table' _ _ _ _ _ Hp') as Hp.
       cbn [anc_chain]. rewrite (table_find _ _ _ _ Hp). cbn [chain_ok axis_step]. split.
-      * apply (nav_parent _ _ _ _ _ HA Hin).
+      * apply (nav_parent' _ _ _ _ _ HA Hin).
       * apply (IH p pp _ Hp). lia.
-    + cbn [anc_chain chain_ok axis_step]. apply (nav_parent _ _ _ _ _ HA Hin).
+    + cbn [anc_chain chain_ok axis_step]. apply (nav_parent' _ _ _ _ _ HA Hin).
 Qed.
 
-Theorem nav_ancestors : forall d t id par s,
-  Arena d t -> In (id, par, s) (table t) ->
+Theorem nav_ancestors' : forall d t id par s,
+  Arena' d t -> In (id, par, s) (table t) ->
   axis_list d AxAncestors id = Ok (id :: ancestor_ids t par).
 Proof.
   intros d t id par s HA Hin. apply (axis_list_chain d t); [exact HA| |].
@@ -140,12 +140,12 @@ Proof.
   - unfold ancestor_ids. pose proof (anc_chain_length (length (table t)) t par) as Hl.
     rewrite table_length in Hl at 2. lia.
 Qed.
-Print Assumptions nav_ancestors.
+Print Assumptions nav_ancestors'.
 
 (* ------------------------------------------------------------------ *)
 (* siblings *)
 Lemma next_chain_ok d t p pp sp :
-  Arena d t -> In (p, pp, sp) (table t) ->
+  Arena' d t -> In (p, pp, sp) (table t) ->
   forall post pre x, child_ids (p + 1) (tchildren sp) = pre ++ x :: post ->
   chain_ok d AxNextSiblings x post.
 Proof.
@@ -157,7 +157,7 @@ Proof.
 Qed.
 
 Lemma prev_chain_ok d t p pp sp :
-  Arena d t -> In (p, pp, sp) (table t) ->
+  Arena' d t -> In (p, pp, sp) (table t) ->
   forall pre x post, child_ids (p + 1) (tchildren sp) = pre ++ x :: post ->
   chain_ok d AxPrevSiblings x (rev pre).
 Proof.
@@ -200,8 +200,8 @@ Proof.
   rewrite size_T in Hb. pose proof (length_le_sizes cs). lia.
 Qed.
 
-Theorem nav_next_siblings : forall d t id par s,
-  Arena d t -> In (id, par, s) (table t) ->
+Theorem nav_next_siblings' : forall d t id par s,
+  Arena' d t -> In (id, par, s) (table t) ->
   axis_list d AxNextSiblings id = Ok (id :: after N.eqb id (sibling_ids t id par)).
 Proof.
   intros d t id par s HA Hin. destruct par as [p|].
@@ -211,13 +211,13 @@ Proof.
     + apply (siblings_length_bound _ _ _ _ _ _ _ Hp E).
   - cbn [sibling_ids after]. rewrite N.eqb_refl.
     apply (axis_list_chain d t); [exact HA| |cbn [length]; lia].
-    cbn [chain_ok axis_step]. rewrite (nav_next_sibling _ _ _ _ _ HA Hin).
+    cbn [chain_ok axis_step]. rewrite (nav_next_sibling' _ _ _ _ _ HA Hin).
     cbn [sibling_ids after]. rewrite N.eqb_refl. reflexivity.
 Qed.
-Print Assumptions nav_next_siblings.
+Print Assumptions nav_next_siblings'.
 
-Theorem nav_prev_siblings : forall d t id par s,
-  Arena d t -> In (id, par, s) (table t) ->
+Theorem nav_prev_siblings' : forall d t id par s,
+  Arena' d t -> In (id, par, s) (table t) ->
   axis_list d AxPrevSiblings id = Ok (id :: rev (before N.eqb id (sibling_ids t id par))).
 Proof.
   intros d t id par s HA Hin. destruct par as [p|].
@@ -227,10 +227,10 @@ Proof.
     + rewrite rev_length. apply (siblings_length_bound _ _ _ _ _ _ _ Hp E).
   - cbn [sibling_ids before]. rewrite N.eqb_refl. cbn [rev].
     apply (axis_list_chain d t); [exact HA| |cbn [length]; lia].
-    cbn [chain_ok axis_step]. rewrite (nav_prev_sibling _ _ _ _ _ HA Hin).
+    cbn [chain_ok axis_step]. rewrite (nav_prev_sibling' _ _ _ _ _ HA Hin).
     cbn [sibling_ids before]. rewrite N.eqb_refl. reflexivity.
 Qed.
-Print Assumptions nav_prev_siblings.
+Print Assumptions nav_prev_siblings'.
 
 (* ------------------------------------------------------------------ *)
 (* first / last children *)
@@ -242,13 +242,13 @@ Proof.
   apply table'_child in Hin'. eapply in_table'_table'. exact Hin'.
 Qed.
 
-Lemma first_chain_ok d t : Arena d t -> forall s id par,
+Lemma first_chain_ok d t : Arena' d t -> forall s id par,
   In (id, par, s) (table t) ->
   exists rest, first_chain id s = id :: rest /\
                chain_ok d AxFirstChildren id rest /\ N.of_nat (length rest) < size s.
 Proof.
   intros HA. induction s as [k cs IH] using tree_ind'; intros id par Hin.
-  pose proof (nav_first_child _ _ _ _ _ HA Hin) as Hfc. cbn [tchildren] in Hfc.
+  pose proof (nav_first_child' _ _ _ _ _ HA Hin) as Hfc. cbn [tchildren] in Hfc.
   destruct cs as [|c r].
   - exists []. cbn [first_chain chain_ok axis_step length]. rewrite size_T.
     split; [reflexivity|]. split; [exact Hfc | lia].
@@ -262,8 +262,8 @@ Proof.
     + cbn [length]. rewrite size_T, sizes_cons. lia.
 Qed.
 
-Theorem nav_first_children : forall d t id par s,
-  Arena d t -> In (id, par, s) (table t) ->
+Theorem nav_first_children' : forall d t id par s,
+  Arena' d t -> In (id, par, s) (table t) ->
   axis_list d AxFirstChildren id = Ok (first_chain id s).
 Proof.
   intros d t id par s HA Hin.
@@ -272,20 +272,20 @@ Proof.
   destruct (in_table_table'' _ _ _ _ Hin) as [pv Hin'].
   pose proof (table'_bounds _ _ _ _ _ Hin'). lia.
 Qed.
-Print Assumptions nav_first_children.
+Print Assumptions nav_first_children'.
 
 Lemma list_snoc_cases {A} (l : list A) : l = [] \/ exists l1 c, l = l1 ++ [c].
 Proof.
   destruct l as [|a l] using rev_ind; [left; reflexivity | right; eauto].
 Qed.
 
-Lemma last_chain_ok d t : Arena d t -> forall s id par,
+Lemma last_chain_ok d t : Arena' d t -> forall s id par,
   In (id, par, s) (table t) ->
   exists rest, last_chain id s = id :: rest /\
                chain_ok d AxLastChildren id rest /\ N.of_nat (length rest) < size s.
 Proof.
   intros HA. induction s as [k cs IH] using tree_ind'; intros id par Hin.
-  pose proof (nav_last_child _ _ _ _ _ HA Hin) as Hlc. cbn [tchildren] in Hlc.
+  pose proof (nav_last_child' _ _ _ _ _ HA Hin) as Hlc. cbn [tchildren] in Hlc.
   rewrite last_chain_T.
   destruct (list_snoc_cases cs) as [-> | (l1 & c & ->)].
   - exists []. cbn [last_chain_children chain_ok axis_step length]. rewrite size_T.
@@ -300,8 +300,8 @@ Proof.
     + cbn [length]. rewrite size_T, sizes_app, sizes_cons. lia.
 Qed.
 
-Theorem nav_last_children : forall d t id par s,
-  Arena d t -> In (id, par, s) (table t) ->
+Theorem nav_last_children' : forall d t id par s,
+  Arena' d t -> In (id, par, s) (table t) ->
   axis_list d AxLastChildren id = Ok (last_chain id s).
 Proof.
   intros d t id par s HA Hin.
@@ -310,4 +310,47 @@ Proof.
   destruct (in_table_table'' _ _ _ _ Hin) as [pv Hin'].
   pose proof (table'_bounds _ _ _ _ _ Hin'). lia.
 Qed.
+Print Assumptions nav_last_children'.
+
+(* ------------------------------------------------------------------ *)
+(* the theorems for [Arena] (strict bound) *)
+Theorem nav_ancestors : forall d t id par s,
+  Arena d t -> In (id, par, s) (table t) ->
+  axis_list d AxAncestors id = Ok (id :: ancestor_ids t par).
+Proof.
+  intros *. intros HA. generalize (Arena_weaken _ _ HA). clear HA. apply nav_ancestors'.
+Qed.
+Print Assumptions nav_ancestors.
+
+Theorem nav_next_siblings : forall d t id par s,
+  Arena d t -> In (id, par, s) (table t) ->
+  axis_list d AxNextSiblings id = Ok (id :: after N.eqb id (sibling_ids t id par)).
+Proof.
+  intros *. intros HA. generalize (Arena_weaken _ _ HA). clear HA. apply nav_next_siblings'.
+Qed.
+Print Assumptions nav_next_siblings.
+
+Theorem nav_prev_siblings : forall d t id par s,
+  Arena d t -> In (id, par, s) (table t) ->
+  axis_list d AxPrevSiblings id = Ok (id :: rev (before N.eqb id (sibling_ids t id par))).
+Proof.
+  intros *. intros HA. generalize (Arena_weaken _ _ HA). clear HA. apply nav_prev_siblings'.
+Qed.
+Print Assumptions nav_prev_siblings.
+
+Theorem nav_first_children : forall d t id par s,
+  Arena d t -> In (id, par, s) (table t) ->
+  axis_list d AxFirstChildren id = Ok (first_chain id s).
+Proof.
+  intros *. intros HA. generalize (Arena_weaken _ _ HA). clear HA. apply nav_first_children'.
+Qed.
+Print Assumptions nav_first_children.
+
+Theorem nav_last_children : forall d t id par s,
+  Arena d t -> In (id, par, s) (table t) ->
+  axis_list d AxLastChildren id = Ok (last_chain id s).
+Proof.
+  intros *. intros HA. generalize (Arena_weaken _ _ HA). clear HA. apply nav_last_children'.
+Qed.
 Print Assumptions nav_last_children.
+
